@@ -161,6 +161,19 @@ def exec_conserve(sc):
                 if ec > 1e-9:
                     viol.append({"inv": "COV-scaling", "msg": f"calibrated covariance at output {i} is not the unit-scale covariance times scale^2: {ec:.2e}"})
                     break
+            # smoothers also return the filtering marginals: same rule
+            if cfg["strategy"] != "filter" and not viol:
+                f1, f0 = r.sol.solution_full.filtering, r1.sol.solution_full.filtering
+                hm = float(onp.mean([dt for _, dt in r.accepted]))
+                for i in range(onp.asarray(r.sol.t).shape[0]):
+                    m0, P0 = embed.normal_np_at(f0, i)
+                    m1, P1 = embed.normal_np_at(f1, i)
+                    want = scale_np(P0, rep, d)
+                    ec = compare.self_cov_err(P1, want, q, d, hm) if onp.max(onp.abs(want)) > 0 else float(onp.max(onp.abs(P1)))
+                    if ec > 1e-9 or compare.mean_err(m1, m0, q, d, hm) > 1e-9:
+                        viol.append({"inv": "COV-scaling", "msg": f"returned filtering marginal at output {i} is not the unit-scale one times scale^2: {ec:.2e}"})
+                        break
+                probes["filtering_marginals_compared"] = 1
             probes["unit_scale_twin_compared"] = 1
     ab = r.rec.abstract_string()
     return viol, probes, stats, ab, r, {"F10_rejected_attempts": n_rej, "F3_checkpoints_placed": len(save_at) - 2}, [dt for _, dt in r.accepted]
